@@ -433,3 +433,22 @@ def run(index, rep, tier):
         for a_ in sorted(popped):
             rep.check(a_ in cleared, "R10.11", cl.qualname, "%s survives clear()" % a_, fn_where(cl), "clear() empties %s" % a_,
                       "TaxonNamespace.clear leaves `%s` as it is although remove_taxon removes a taxon's entry from it: a taxon whose bit was looked up before clear() keeps that entry, so when the same Taxon object is added again taxon_bitmask() returns the OLD bit while its accession index is new - bit and index disagree, bitmask_taxa_list raises KeyError, splits are rendered with the wrong taxa" % a_)
+
+    # ---- R10.12 a locked namespace is re-opened only to the state it was found in
+    with rep.section("R10.12"):
+        rep.rule("R10.12", "a namespace the symbol mapper has locked is re-opened only to the state it was found in: every value NexusTaxonSymbolMapper stores into <namespace>.is_mutable is the constant False or the saved original state itself - never an expression computed from it (`state is not None` is True for a namespace that was immutable)")
+        mp = index.klass("dendropy.dataio.nexusprocessing.NexusTaxonSymbolMapper")
+        saved = {w.attr for m in mp.methods.values() for w in writes_in(m.node) if w.kind == "store" and w.base is not None and norm(w.base) == "self" and w.value is not None and isinstance(w.value, ast.Attribute) and w.value.attr == "is_mutable"}
+        if len(saved) != 1:
+            raise AnalysisError("R10.12: the attribute that saves the namespace's mutability was not recognised")
+        sv = "self." + sorted(saved)[0]
+        nst = 0
+        for m in mp.methods.values():
+            for a in walk_no_nested(m.node):
+                if isinstance(a, ast.Assign) and isinstance(a.targets[0], ast.Attribute) and a.targets[0].attr == "is_mutable":
+                    nst += 1
+                    v = a.value
+                    ok = (isinstance(v, ast.Constant) and v.value is False) or norm(v) == sv
+                    rep.check(ok, "R10.12", m.qualname, "is_mutable set to a computed value: %s" % norm(v)[:40], fn_where(m, a), "%s: `%s`" % (m.name, norm_stmt(a)[:50]),
+                              "%s sets the namespace's is_mutable to `%s`: anything other than False or the saved state `%s` itself can open a namespace that was immutable when it was handed to the reader - an unknown label in the source then adds a member to a namespace that must never gain members (and is re-locked afterwards, so nothing shows)" % (m.qualname, norm(v)[:50], sv))
+        rep.floor("R10.12", "stores into is_mutable in the symbol mapper", 4, nst)
